@@ -82,10 +82,13 @@ func (w *ifaceWorld) Do(st Step) string {
 			ip, _ := w.ptr(st.Str("v"))
 			base := 10000 + 100*st.Int("id")
 			h := w.builder(st.Str("b")).Interface(ip).Method(st.Str("m"))
-			if st.Str("kind") == "apply" {
-				h.Apply(func(ctx *mocker.IContext, a int) int { return base + a })
-			} else {
+			switch st.Str("kind") {
+			case "apply":
+				h.Apply(func(ctx *mocker.IContext, a int) int { return base + 7 })
+			case "stub":
 				h.As(func(ctx *mocker.IContext, a int) int { return 0 }).Return(base + 7)
+			default: // "when": answers only the argument 7
+				h.As(func(ctx *mocker.IContext, a int) int { return 0 }).When(7).Return(base + 7)
 			}
 		case "Reset":
 			w.builder(st.Str("b")).Reset()
@@ -140,14 +143,19 @@ func (w *ifaceWorld) Observe(st Step) map[string]string {
 			}
 		}
 		var r int
-		pm := catch(func() { r = w.call(v, m, 7) })
+		arg := st.Int("a")
+		pm := catch(func() { r = w.call(v, m, arg) })
 		switch {
 		case pm != "" && strings.Contains(pm, "method not implements"):
 			out["res"] = "panic:notimpl"
+		case pm != "" && strings.Contains(pm, "no suitable condition"):
+			out["res"] = "panic:nocond"
 		case pm != "":
 			out["res"] = pm
 		case r >= 10000 && (r-10000)%100 == 7:
 			out["res"] = fmt.Sprintf("repl:%d", (r-10000)/100)
+		case r >= 500 && r < 1000 && false:
+			out["res"] = "orig"
 		case r >= 500 && r < 1000:
 			out["res"] = "orig"
 		default:
